@@ -34,7 +34,9 @@ def strategy(tier_n):
             tau = -tau
         return {'family': fam, 'tau': tau, 'how': draw(st.sampled_from(['set', 'set', 'fit', 'refit'])), 'tau0': draw(st.floats(0.05, 0.8)),
                 'seed': draw(S.SEEDS), 'seed_kind': draw(st.sampled_from(['int', 'RandomState'])),
-                'fit_seed': draw(S.SEEDS), 'n_scale': tier_n}
+                'fit_seed': draw(S.SEEDS), 'n_scale': tier_n,
+                # the same law whether the rows come from one call or from many small calls (n = 1, 2, 3 per call)
+                'chunk': draw(st.sampled_from([None, None, None, 1, 2, 3]))}
 
     return cases()
 
@@ -71,7 +73,17 @@ def oracle(case):
     model_tau = float(cop.tau)
     base = 20000 if fam == 'clayton' else 8000
     n = int(base * case['n_scale'])
-    X = np.asarray(value(cop.sample, n, what='%s.sample' % type(cop).__name__))
+    chunk = case.get('chunk')
+    if chunk:
+        n = min(n, 3000) // chunk * chunk
+        parts = []
+        for _ in range(n // chunk):
+            part = np.asarray(value(cop.sample, chunk, what='%s.sample' % type(cop).__name__))
+            require(part.shape == (chunk, 2), 'sample(%d) returned shape %s' % (chunk, part.shape), tag='shape')
+            parts.append(part)
+        X = np.vstack(parts)
+    else:
+        X = np.asarray(value(cop.sample, n, what='%s.sample' % type(cop).__name__))
     require(X.shape == (n, 2), 'sample(%d) returned shape %s' % (n, X.shape), tag='shape')
     require(np.all(np.isfinite(X)), 'sample contains non-finite values', tag='finite')
     require(np.all((X >= 0) & (X <= 1)), 'sample outside [0,1]: min %r max %r' % (X.min(), X.max()), tag='range')
@@ -124,7 +136,7 @@ def oracle(case):
     require(d3 <= geps, '%s(theta=%r): Rosenblatt transform of the sample is not uniform on the square (%.4f > %.4f)' % (fam, theta, d3, geps),
             tag='rosenblatt')
     target(max(worst, abs(tn - tt) / band, d2 / geps, d3 / geps), label='statistic/band')
-    return {'nontrivial': abs(tau) >= 0.2, 'classes': [fam, 'how:' + case['how'], 'seed:' + case['seed_kind'], 'neg' if tau < 0 else 'pos']}
+    return {'nontrivial': abs(tau) >= 0.2, 'classes': [fam, 'how:' + case['how'], 'seed:' + case['seed_kind'], 'neg' if tau < 0 else 'pos', 'chunk:%s' % case.get('chunk')]}
 
 
 SUBS = [
